@@ -774,6 +774,7 @@ func runC03(c *Ctx) {
 	rulePacketRead(c, p, "C03.packet-read")
 	ruleEndMarker(c, p, "C03.endmarker")
 	ruleChainComplete(c, p, "C03.chain")
+	ruleCompressibleArg(c, p, "C03.compressible")
 	ruleFreshTargets(c, p, "C03.fresh")
 	ruleReaderSource(c, p, "C03.source")
 	ruleReadFull(c, p, "C03.readfull")
@@ -1015,4 +1016,50 @@ func ruleChainComplete(c *Ctx, p *core.Program, rule string) {
 	if !bad {
 		c.R.Ok(rule, core.FuncName(ex), cfg, p.Pos(ex.Pos()), "success only after an exception with Nested = false")
 	}
+}
+
+// ruleCompressibleArg (C03.compressible): every block decode is told whether the packet kind is compressed.
+func ruleCompressibleArg(c *Ctx, p *core.Program, rule string) {
+	c.R.Rule(rule, "every call of Client.decodeBlock passes decodeOptions whose Compressible field is assigned from ServerCode.Compressible() of the packet code being handled: with compression negotiated, a block decoded without it is parsed from the compressed frame's bytes (block info fails or, worse, succeeds on garbage)")
+	cfg := p.Cfg.Name
+	n := 0
+	for _, fn := range p.Funcs() {
+		if pkgOf(fn) == nil || pkgOf(fn).Path() != core.PkgCh {
+			continue
+		}
+		for _, call := range core.FindCalls(fn, isClientMethod("decodeBlock")) {
+			n++
+			key := core.CallKey(fn, call)
+			args := call.Common().Args
+			opt := args[len(args)-1]
+			okC := false
+			// the options literal: a local Alloc whose fields are stored, then loaded as a whole
+			core.DependsOn(opt, func(v ssa.Value) bool {
+				al, ok := v.(*ssa.Alloc)
+				if !ok {
+					return false
+				}
+				for _, r := range *al.Referrers() {
+					fa, ok := r.(*ssa.FieldAddr)
+					if !ok || fieldNameOnly(fa.X.Type(), fa.Field) != "Compressible" {
+						continue
+					}
+					for _, r2 := range *fa.Referrers() {
+						if st, ok := r2.(*ssa.Store); ok && st.Addr == ssa.Value(fa) {
+							if _, ok := core.CallTo(st.Val, func(f *types.Func) bool { return core.IsMethod(f, core.PkgProto, "ServerCode", "Compressible") }); ok {
+								okC = true
+							}
+						}
+					}
+				}
+				return false
+			}, false)
+			if okC {
+				c.R.Ok(rule, key, cfg, p.Pos(call.Pos()), "Compressible <- code.Compressible()")
+			} else {
+				c.R.Bad(rule, key, cfg, p.Pos(call.Pos()), "this block decode does not pass code.Compressible(): on a connection with compression the packet's compressed frame is parsed as a plain block")
+			}
+		}
+	}
+	c.R.Floor(rule, cfg, n, 3)
 }
